@@ -504,3 +504,67 @@ def _moreau_prox_multi(layout, active):
 
 for _layout, _active in (((0, 2), (0, 1)), ((2, 2), (1,)), ((1, 0, 2), (0, 1, 2)), ((1, 0, 2), (1, 2))):
     contract("C18", f"Moreau.prox[contacts {_layout}, active {_active}]", samples=0, replayable=False, timeout=60, max_paths=400, tiers=("quick", "thorough") if len(_layout) == 2 else ("thorough",))(_moreau_prox_multi(_layout, _active))
+
+
+# --------------------------------------------------------------------------- the real System's impact-law combinations
+@contract("C18", "System.xi_N, xi_F/Newton impact law per contact", samples=0, replayable=False, timeout=60)
+def c_system_xi(k):
+    """the stepping contracts above use the System callee contract's xi_N / xi_F; here the REAL System.xi_N / xi_F are
+    executed on a real System holding two contacts with their own (symbolic, all different) restitution coefficients:
+    normal rows combine g_N_dot with e_N, tangential rows combine gamma_F with e_F of the SAME contact"""
+    if not k.sym:
+        raise K.Reject("symbolic only")
+    import cardillo.system as csys
+
+    k.covers(csys.System.xi_N, csys.System.xi_F)
+    memo = {}
+
+    def atoms(tag, n, *args):
+        key = (tag,) + tuple(tuple(S._coerce(e).uid for e in np.atleast_1d(a)) if not isinstance(a, float) else a for a in args)
+        if key not in memo:
+            memo[key] = S.symarray(f"{tag}@{len(memo)}_", n)
+        return memo[key].copy()
+
+    class Body:
+        def __init__(self, name):
+            self.name, self.nq, self.nu = name, 2, 2
+            self.q0, self.u0 = np.zeros(2), np.zeros(2)
+
+    class Contact:
+        def __init__(self, name, body):
+            self.name, self.body = name, body
+            self.nla_N, self.nla_F = 1, 2
+            self.e_N, self.e_F = S.symarray(f"eN_{name}", 1), S.symarray(f"eF_{name}", 2)
+            self.friction_laws = []
+
+        def assembler_callback(self):
+            self.qDOF, self.uDOF = self.body.my_qDOF, self.body.my_uDOF
+
+        def g_N(self, t, q):
+            return atoms(f"gN_{self.name}", 1, t, q)
+
+        def g_N_dot(self, t, q, u):
+            return atoms(f"gNd_{self.name}", 1, t, q, u)
+
+        def gamma_F(self, t, q, u):
+            return atoms(f"gF_{self.name}", 2, t, q, u)
+
+    with npshim.active(True), k.spec():
+        sysm = csys.System()
+        b1, b2 = Body("b1"), Body("b2")
+        c1, c2 = Contact("c1", b1), Contact("c2", b2)
+        sysm.add(b1, c1, b2, c2)
+        saved = csys.consistent_initial_conditions
+        csys.consistent_initial_conditions = lambda system, *a_, **kw: (system.t0, system.q0, system.u0, None, None, None, None, None, None, None)
+        try:
+            sysm.assemble()
+        finally:
+            csys.consistent_initial_conditions = saved
+        tp, tq = 0.25, 0.5
+        qa, qb, ua, ub = S.symarray("q_pre", sysm.nq), S.symarray("q_post", sysm.nq), S.symarray("u_pre", sysm.nu), S.symarray("u_post", sysm.nu)
+        xiN = sysm.xi_N(tp, tq, qa, qb, ua, ub)
+        xiF = sysm.xi_F(tp, tq, qa, qb, ua, ub)
+        k.prove("one normal row per contact, two tangential rows per contact", len(xiN) == 2 and len(xiF) == 4)
+        for c in (c1, c2):
+            k.prove_eq(f"xi_N of contact {c.name} = g_N_dot(post) + e_N g_N_dot(pre) with its own e_N", xiN[c.la_NDOF], c.g_N_dot(tq, qb[c.qDOF], ub[c.uDOF]) + c.e_N * c.g_N_dot(tp, qa[c.qDOF], ua[c.uDOF]))
+            k.prove_eq(f"xi_F of contact {c.name} = gamma_F(post) + e_F gamma_F(pre) with its own e_F", xiF[c.la_FDOF], c.gamma_F(tq, qb[c.qDOF], ub[c.uDOF]) + c.e_F * c.gamma_F(tp, qa[c.qDOF], ua[c.uDOF]))
